@@ -459,6 +459,61 @@ def fresh_schedules(res: Result, shard_i: int, shard_n: int, total: int, sigs: s
                            "failures": [f[2] for f in doc["failures"]]})
 
 
+def synthetic_parents(res: Result, shard_i: int, shard_n: int, total: int) -> None:
+    """User-defined entity classes are legitimate inputs of entity_reader/entity_writer.  Four parents refer to one shipped nested class
+    in the four possible roles (plain, nullable, array, nullable array); their readers and writers are created and used in a random
+    order (each nested class is used for one order only, so every order starts from a clean slate for that class) and every result
+    is compared with the reference codec.  A plan shared between fields that look alike but are not shows up as order dependence."""
+    import dataclasses
+    from typing import ClassVar  # noqa: F401
+
+    from kio.serial import entity_reader, entity_writer
+    from kio.static.constants import EntityType
+
+    nested = [c for c in walk.classes() if c.__type__.name == "nested" and 1 <= len(dataclasses.fields(c)) <= 6 and describe.max_depth(describe.spec_from_class(c)) == 0]
+    rng0 = common.rng_for("C19", "synthetic")
+    rng0.shuffle(nested)
+    for k in range(shard_i, min(total, len(nested)), shard_n):
+        N = nested[k]  # noqa: N806
+        rng = common.rng_for("C19", "synthetic", k)
+        roles = {"plain": N, "nullable": N | None, "array": tuple[N, ...], "nullable_array": tuple[N, ...] | None}
+        parents = {}
+        for role, ann in roles.items():
+            ns = {"__type__": EntityType.nested, "__version__": N.__version__, "__flexible__": N.__flexible__}
+            P = dataclasses.make_dataclass(f"Parent_{role}_{N.__name__}", [("before", int, dataclasses.field(metadata={"kafka_type": "int16"})), ("n", ann),  # noqa: N806
+                                           ("after", int, dataclasses.field(metadata={"kafka_type": "int8"}))], frozen=True, slots=True, kw_only=True, namespace=ns)
+            parents[role] = P
+        g = gen.Gen(rng, "canonical", big_prob=0.0, max_items=3)
+        cases = []
+        for role, P in parents.items():  # noqa: N806
+            spec = describe.spec_from_class(P)
+            for _ in range(3):
+                tree = g.struct(spec)
+                cases.append((role, P, spec, tree, describe.tree_to_instance(spec, tree), refcodec.encode_bytes(spec, tree)))
+        ops = [(kind, c) for c in cases for kind in ("enc", "dec")]
+        rng.shuffle(ops)
+        first_roles = []
+        for kind, (role, P, spec, tree, inst, ref) in ops:  # noqa: N806
+            if role not in first_roles:
+                first_roles.append(role)
+            res.count("synthetic_parent_ops")
+            try:
+                if kind == "enc":
+                    buf = io.BytesIO()
+                    entity_writer(P)(buf, inst)
+                    ok, why = buf.getvalue() == ref, f"encoded {buf.getvalue()[:24].hex()}.. instead of {ref[:24].hex()}.."
+                else:
+                    ok, why = entity_reader(P)(io.BytesIO(ref)) == inst, "decoded to a different value"
+            except Exception as exc:  # noqa: BLE001
+                ok, why = False, f"raised {exc!r}"
+            if not ok:
+                res.violation(f"synthetic-parents:{role}:{kind}",
+                              f"a user-defined parent holding {walk.class_path(N)} as {role} ({kind}) after parents in the roles {first_roles[:-1] or ['none']} were used first: {why}",
+                              {"nested": walk.class_path(N), "role": role, "op": kind, "order": first_roles, "tree": tree})
+                break
+        res.count("synthetic_parent_orders")
+
+
 def stress(res: Result, seconds: float, nthreads: int = 16) -> None:
     """Uncontrolled run: real GIL scheduling with a tiny switch interval (below line granularity)."""
     import time
@@ -550,6 +605,7 @@ def c19_worker(res: Result, i: int, n: int) -> None:
     lines: set = set()
     schedules(res, i, n, 3200 if quick else 240000, sigs, lines)
     fresh_schedules(res, i, n, 160 if quick else 4800, sigs)
+    synthetic_parents(res, i, n, 96 if quick else 600)
     res.coverage["distinct_schedule_signatures"] = len(sigs)
     res.coverage["preemption_lines"] = sorted(lines)
     if i == 0:
